@@ -44,6 +44,36 @@ type World struct {
 	SendBuf    int // default capacity of a stream direction in bytes
 	UDP        UDPFaults
 	OnNewConn  func(c *Conn) // called (under no lock) for every new node-side stream connection
+	NodeConns  []NodeConn    // node-side connections in the order they were made (dials, serial opens)
+}
+
+// NodeConn describes one connection made by the node.
+type NodeConn struct {
+	Addr string // dialled address or serial device
+	Kind string // tcp | udp | serial
+	ID   int    // connection / socket id
+	Port int    // local (source) port for tcp / udp
+	T    time.Duration
+}
+
+func (w *World) noteNodeConn(nc NodeConn) {
+	nc.T = dsim.Now()
+	w.mu.Lock()
+	w.NodeConns = append(w.NodeConns, nc)
+	w.mu.Unlock()
+}
+
+// NodeConnsFor lists the node's connections to addr in order.
+func (w *World) NodeConnsFor(addr string) []NodeConn {
+	w.mu.Lock()
+	defer w.mu.Unlock()
+	var out []NodeConn
+	for _, c := range w.NodeConns {
+		if c.Addr == addr {
+			out = append(out, c)
+		}
+	}
+	return out
 }
 
 // DialVerdict is what the network does with a connection attempt.
@@ -666,6 +696,9 @@ func (w *World) dial(ctx context.Context, network, address string, node bool) (n
 		s.connected = true
 		s.remote = Addr{"udp", "127.0.0.1", port}
 		rec("net", s.name+" udp dial "+address, int64(s.id), int64(port))
+		if node {
+			w.noteNodeConn(NodeConn{Addr: address, Kind: "udp", ID: s.id, Port: s.port})
+		}
 		return &UDPConn{s: s}, nil
 	}
 	switch verdict {
@@ -709,8 +742,11 @@ func (w *World) dial(ctx context.Context, network, address string, node bool) (n
 		return nil, &net.OpError{Op: "dial", Net: network, Err: ErrRefused}
 	}
 	rec("net", a.Name+" connected "+address, int64(a.ID), int64(port), int64(eph))
-	if node && w.OnNewConn != nil {
-		w.OnNewConn(a)
+	if node {
+		w.noteNodeConn(NodeConn{Addr: address, Kind: "tcp", ID: a.ID, Port: eph})
+		if w.OnNewConn != nil {
+			w.OnNewConn(a)
+		}
 	}
 	return a, nil
 }
@@ -838,6 +874,7 @@ func SerialOpen(device string, mode *serial.Mode) (serial.Port, error) {
 	cb := s.OnOpen
 	s.mu.Unlock()
 	rec("net", node.Name+" serial open "+device, int64(node.ID), int64(n))
+	w.noteNodeConn(NodeConn{Addr: device, Kind: "serial", ID: node.ID})
 	if cb != nil {
 		cb(node, peer)
 	}
